@@ -72,6 +72,11 @@ class HarnessError(Exception):
     pass
 
 
+class RunHang(BaseException):
+    """A single simulated run exceeded its wall-clock guard (an endless loop in the system
+    under test, e.g. a proposal sampler that can never satisfy its constraint)."""
+
+
 def jsonable(x, depth=0):
     import numpy as np
     if depth > 6:
@@ -112,6 +117,28 @@ def execute(mod, kind, tape):
     return out
 
 
+def _guard_seconds(mod):
+    return 0 if getattr(mod, 'NO_RUN_ALARM', False) else float(
+        os.environ.get('VERIF_RUN_TIMEOUT', getattr(mod, 'RUN_TIMEOUT', 240)))
+
+
+def guarded_execute(mod, kind, tape):
+    """execute() under a wall-clock guard (SIGALRM; main thread of the process only)."""
+    guard = _guard_seconds(mod)
+    if not guard:
+        return execute(mod, kind, tape)
+
+    def on_alarm(signum, frame):
+        raise RunHang()
+    prev = signal.signal(signal.SIGALRM, on_alarm)
+    signal.setitimer(signal.ITIMER_REAL, guard)
+    try:
+        return execute(mod, kind, tape)
+    finally:
+        signal.setitimer(signal.ITIMER_REAL, 0)
+        signal.signal(signal.SIGALRM, prev)
+
+
 def _worker_chunk(args):
     """Execute a chunk of runs.  Returns (records, aggregate, extra): full records only for runs
     that matter individually (violations, nondeterminism, harness errors, samples, payloads);
@@ -124,11 +151,12 @@ def _worker_chunk(args):
            'abs_nt': set(), 'abs_all': set(), 'inconclusive': 0, 'nontrivial': 0, 'rechecked': 0,
            'first': []}
     keep_payload = getattr(mod, 'PAYLOAD_KEEP', 0)
+    guard = _guard_seconds(mod)
     for idx in indices:
         seed = run_seed_for(mod.PROPERTY, verif_seed, kind, idx)
         try:
             tape = Tape(seed, index=idx)
-            out = execute(mod, kind, tape)
+            out = guarded_execute(mod, kind, tape)
             h = int(hashlib.sha256(str(out.abstract).encode()).hexdigest()[:15], 16)
             agg['n'] += 1
             agg['stats'].update(out.stats)
@@ -152,7 +180,7 @@ def _worker_chunk(args):
                 r['payload'] = out.payload
                 keep = True
             if recheck and derive_seed(seed, 'recheck') % recheck == 0:
-                out2 = execute(mod, kind, Tape(replay=tape.rec, index=idx))
+                out2 = guarded_execute(mod, kind, Tape(replay=tape.rec, index=idx))
                 agg['rechecked'] += 1
                 if out2.digest() != out.digest():
                     r['nondet'] = (out.digest(), out2.digest())
@@ -166,6 +194,11 @@ def _worker_chunk(args):
                 agg['first'].append({'kind': kind, 'run_index': idx, 'run_seed': seed})
             if keep:
                 res.append(r)
+        except RunHang:
+            res.append({'kind': kind, 'index': idx, 'seed': seed, 'hang': True,
+                        'harness_error': 'RUN-HANG: run %s/%d (seed %d) did not finish within '
+                                         '%.0f s\n%s' % (kind, idx, seed, guard,
+                                                          traceback.format_exc()[-1500:])})
         except BaseException as e:  # harness error: never a violation
             if isinstance(e, (KeyboardInterrupt, SystemExit)):
                 raise
@@ -213,7 +246,10 @@ def _kill_children(ex):
 
 def minimise(mod, kind, tape_values, clause_sig, max_runs, index=0):
     def still(v):
-        out = execute(mod, kind, Tape(replay=v, index=index))
+        try:
+            out = guarded_execute(mod, kind, Tape(replay=v, index=index))
+        except RunHang:
+            return False
         return any(x.signature == clause_sig for x in out.violations)
     return shrink(tape_values, still, max_runs=max_runs)
 
@@ -469,7 +505,7 @@ def run_check(mod, tier, verif_seed, workers=None, budget_scale=None):
     faulthandler.cancel_dump_traceback_later()
     if timed_out:
         print('HARNESS-TIMEOUT after %.0fs' % hard_timeout)
-        return 2
+        return 1 if n_viol else 2
     if harness_errors:
         print('HARNESS-ERROR (%d):' % len(harness_errors))
         for h in harness_errors[:3]:
